@@ -516,7 +516,11 @@ func (m *Machine) callSSA(caller *frame, callpos token.Pos, fn *ssa.Function, ar
 	}
 	defer func() { m.frames-- }()
 
-	fi := m.shared.info(fn)
+	fi, ok := m.finfo[fn]
+	if !ok {
+		fi = m.shared.info(fn)
+		m.finfo[fn] = fi
+	}
 	fr := &frame{i: m, caller: caller, fn: fn, fi: fi}
 	fr.env = make([]value, fi.n)
 	fr.block = fn.Blocks[0]
@@ -561,7 +565,9 @@ func (m *Machine) runFrame(fr *frame) {
 	}()
 
 	for {
-		m.shared.Blocks.LoadOrStore(fr.block, struct{}{})
+		if _, seen := m.blocks[fr.block]; !seen {
+			m.blocks[fr.block] = struct{}{}
+		}
 		nonPhis := executePhis(fr)
 		for _, instr := range nonPhis {
 			m.steps++
